@@ -115,6 +115,14 @@ def run_job(job):
                         for a in prog.get("aliases", []):
                             if a[1] == n["name"]:
                                 src += "\n%s = %s\n" % (a[0], a[1])
+                        # the names the new edition itself calls through exist in the program text: the cells binding them
+                        for q in n.get("refs", []):
+                            if q["form"] == "alias" and ("alias_" + q["to"]) not in overridden:
+                                src += "\nalias_%s = %s\n" % (q["to"], q["to"])
+                            elif q["form"] == "wrapped":
+                                src += "\nwrapped_%s = _deco(%s)\n" % (q["to"], q["to"])
+                            elif q["form"] == "wrapped2":
+                                src += "\nwrapped2_%s = _deco(_deco(%s))\n" % (q["to"], q["to"])
                         op_ = {"op": "exec_def", "name": n["name"], "src": src}
                         if n.get("where") == "init":
                             op_["module"] = vprogs.PKG
